@@ -7,7 +7,7 @@ the rotation it returns maps the references onto the measurements in the
 direction fixed by the convention table below."""
 import numpy as np
 
-from .. import gens
+from .. import forms, gens
 from ..core import Case, call
 from ..oracles import as_real_array
 from ..ref import quat as rq
@@ -44,7 +44,7 @@ TABLE = {
     "ecompass/NED/rotmat": ("free", "inv"), "ecompass/ENU/rotmat": ("free", "inv"), "ecompass/NED/quaternion": ("general", "inv"),
     "ecompass/ENU/quaternion": ("general", "inv"), "ecompass/NED/rpy": ("general", "inv"), "ecompass/NED/axisangle": ("general", "inv"),
     "am2DCM/ENU": ("free", "fwd"), "am2DCM/NED": ("free", "fwd"), "am2q/ENU": ("general", "inv"), "am2q/NED": ("general", "inv"),
-    "am2angles": ("general", "inv"), "acc2q": ("free", "inv"),
+    "am2angles": ("general", "inv"), "acc2q": ("free", "inv"), "Tilt/angles[acc2q, return_euler]": ("free", "inv"), "Davenport[gravity=]": ("free", "inv"),
 }
 # estimator objects used more than once: a first estimate on other data, then (where the class exposes its reference
 # vectors as attributes) the references re-assigned, then the judged estimate
@@ -58,10 +58,10 @@ CTOR1 = ["TRIAD/rotmat/NED", "TRIAD/quaternion/ENU", "Davenport", "QUEST", "FLAE
          "Tilt/angles"]
 for _n in CTOR1:
     TABLE[_n + "[constructor, one sample]"] = TABLE[_n]
-TILT_ONLY = {"Tilt/acc-only", "AQUA.estimate/acc", "acc2q"}
+TILT_ONLY = {"Tilt/acc-only", "AQUA.estimate/acc", "acc2q", "Tilt/angles[acc2q, return_euler]"}
 ROUTES = list(TABLE)
 REGIONS = {"general": 150, "generic": 60, "special:level": 13, "special:inverted": 7, "special:vertical": 12, "special:half-turn": 8, "special:identity": 1,
-           "near-special:level": 20, "near-special:inverted": 10, "near-special:vertical": 20, "near-special:half-turn": 12}
+           "whole": 40, "near-special:level": 20, "near-special:inverted": 10, "near-special:vertical": 20, "near-special:half-turn": 12}
 PROBES = [("ahrs.filters.triad", "TRIAD.estimate"), ("ahrs.filters.davenport", "Davenport.estimate"), ("ahrs.filters.quest", "QUEST.estimate"),
           ("ahrs.filters.flae", "FLAE.estimate"), ("ahrs.filters.oleq", "OLEQ.estimate"), ("ahrs.filters.saam", "SAAM.estimate"),
           ("ahrs.filters.famc", "FAMC.estimate"), ("ahrs.filters.fqa", "FQA.estimate"), ("ahrs.filters.tilt", "Tilt.estimate"),
@@ -109,6 +109,13 @@ def generate(rng, tier, shard, nshards):
             yield Case("free", "special:" + lab.split()[0], q=q, label=lab, dip=draw_dip(rng, k) if rep else 55.0,
                        sa=2.5 if not rep else gens.logu(rng, 1e-2, 1e2), sm=31.0 if not rep else gens.logu(rng, 1e-2, 1e3), seed=int(rng.integers(2**31)))
     yield from near_special(rng, tier, shard, nshards)
+    for i in range(gens.budget(48, tier, nshards)):
+        while True:
+            ql = rng.integers(-3, 4, 4).astype(float)
+            if np.any(ql[1:]) and np.any(ql):
+                break
+        yield Case("free", "whole", q=ql / np.linalg.norm(ql), ql=ql, label="whole-number measurements", dip=float(np.degrees(np.arctan2(4.0, 3.0))) * float(rng.choice([-1.0, 1.0])),
+                   sa=1.0, sm=1.0, seed=int(rng.integers(2**31)))
 
 
 def near_special(rng, tier, shard, nshards):
@@ -126,6 +133,11 @@ def near_special(rng, tier, shard, nshards):
 
 def nontrivial(case):
     return abs(abs(case.p["q"][0]) - 1.0) > 1e-12
+
+
+def decode_kind(name):
+    name = name.split("[")[0]
+    return "matrix" if ("rotmat" in name or name.startswith("am2DCM")) else "attitude"
 
 
 def decode(name, val):
@@ -204,6 +216,8 @@ def specs(dip_deg, seed, q_true=None, sgn=1.0):
     out["am2q/NED"] = (-G, mN(d), lambda a, m: o.am2q(a, m, frame="NED"))
     out["am2angles"] = (G, mN(d), lambda a, m: o.am2angles(a, m))
     out["acc2q"] = (G, mN(d), lambda a, m: o.acc2q(a))
+    out["Tilt/angles[acc2q, return_euler]"] = (G, mN(d), lambda a, m: np.radians(o.acc2q(a, return_euler=True)))      # roll, pitch, yaw in degrees
+    out["Davenport[gravity=]"] = (np.array(dv.g_q, float), np.array(dv.m_q, float), lambda a, m: F.Davenport(magnetic_dip=dip_deg, gravity=3.71).estimate(a, m))
     # ---- constructor entry point, one 1-D sample
     ctor = {"TRIAD/rotmat/NED": lambda a, m: F.TRIAD(a, m, v2=mN(d).copy(), frame="NED").A,
             "TRIAD/quaternion/ENU": lambda a, m: F.TRIAD(a, m, v2=mE(d).copy(), frame="ENU", representation="quaternion").A,
@@ -297,6 +311,16 @@ def check(case, ctx):
         ctx.region_override = "refs-orthogonal(|dip|<1e-5):" + case.region.split(":")[0] if abs(90.0 - np.degrees(sep)) < 1e-5 else None
         M = Rt if conv == "fwd" else Rt.T
         acc, mag = M @ gh * sa, M @ mh * sm
+        if case.region == "whole":
+            n2 = float(case.p["ql"] @ case.p["ql"])
+            acc_i, mag_i = np.round(acc * n2), np.round(mag * 5.0 * n2)
+            if np.abs(acc_i - acc * n2).max() < 1e-9 and np.abs(mag_i - mag * 5.0 * n2).max() < 1e-9 and np.any(acc_i) and np.any(mag_i):
+                acc, mag = acc_i, mag_i          # exact whole-number images of the references (rational rotation, 3-4-5 dip)
+                att = decode_kind(name) != "matrix"
+                forms.invariant(ctx, name, lambda x, y: fn(x, y), [acc, mag], attitude=att)
+                if name.endswith("[constructor, one sample]"):
+                    forms.invariant(ctx, name, lambda x, y: np.asarray(fn(x, y), float)[1], [np.array([acc, acc, acc]), np.array([mag, mag, mag])],
+                                    clause="N-row constructor: the same values in another argument form give the same result", attitude=att)
         out = call(fn, acc.copy(), mag.copy())
         if not ctx.returned(out, route=name):
             continue
